@@ -187,7 +187,20 @@ def run_exec_shards(seed, shards, npat, nhay, budget, corpus=None, feat="default
                 elif line.startswith("MISMATCH"): mism.append(line)
                 elif line.startswith("PROPVIOL"): pv.append(line)
             if rc != 0 or not got: errs.append("pipeline rc=%d: %s" % (rc, out[-300:]))
+    # a harness process killed by a signal (memory error, abort): re-run that shard alone with announcements so
+    # that the input it died on is named
+    crashes = []
+    for k, c in enumerate(cmds):
+        if len(crashes) >= 2: break
+        if any(("exec %d " % (seed * 1000 + k)) in e and ("Segmentation fault" in e or "Aborted" in e or "Illegal instruction" in e or "Bus error" in e) for e in errs):
+            hc = c.split(" | ")[0]
+            rc2, out2 = sh("RV_ANNOUNCE=1 %s 2>&1 >/dev/null | tail -n 1" % hc, timeout)
+            t = out2.strip().split()
+            if len(t) == 7 and t[0] == "A":
+                crashes.append(dict(pattern_hex=t[1], flags=t[2], no_opt=t[3], hay_hex=t[4], start=t[5], engine=t[6], shard_cmd=hc))
+    run_exec_shards.crashes = crashes
     return summary, mism, pv, errs
+run_exec_shards.crashes = []
 
 def run_stream_shards(sub, drvmode, seed, shards, n, extra="", feat="default", timeout=1500):
     """Generic: `rvharness <sub> <seed> <n> <extra> | driver <drvmode>` in parallel shards."""
